@@ -19,6 +19,8 @@ import (
 	"strings"
 	"sync"
 	"unsafe"
+
+	"verif/vrace"
 )
 
 // Outcome of one execution.
@@ -84,6 +86,7 @@ type Thread struct {
 	hash      uint64
 	Name      string
 	isDaemon  bool
+	raceTok   [2]uint64 // race detector token: released when the thread ends, acquired by Join
 }
 
 // Exec is one execution.
@@ -101,6 +104,7 @@ type Exec struct {
 	finished bool
 	stackReq bool
 	stackAck chan struct{}
+	quietTok [2]uint64 // race detector token: released by every thread at every point, acquired by Quiesce/Settle
 
 	PanicVal   any
 	PanicStack string
@@ -111,9 +115,10 @@ type Exec struct {
 	Log   []Event
 	Fails []Failure
 
-	nextObj int
-	chans   map[uintptr]*chanState
-	pendSeq int
+	nextObj  int
+	chans    U64Map // channel identity -> index into chanList
+	chanList []*chanState
+	pendSeq  int
 
 	// virtual clock
 	now       int64
@@ -139,10 +144,10 @@ type Exec struct {
 	wg sync.WaitGroup
 
 	Data    map[string]any // scenario scratch
-	objHash map[int]uint64
+	objHash U64Map
 	TraceOn bool
 	env     *Thread
-	ptrIDs  map[unsafe.Pointer]uint64
+	ptrIDs  U64Map
 	Trace   []string
 }
 
@@ -178,11 +183,9 @@ func Run(cfg Config, main func()) *Exec {
 		HorizonN:        cfg.Horizon,
 		doneCh:          make(chan struct{}, 1),
 		stackAck:        make(chan struct{}),
-		chans:           map[uintptr]*chanState{},
 		EnvBudget:       cfg.EnvBudget,
 		Visit:           cfg.Visit,
 		Data:            map[string]any{},
-		objHash:         map[int]uint64{},
 		TraceOn:         cfg.Trace,
 		BlockSwitchCost: cfg.BlockSwitchCost,
 		SelectCost:      cfg.SelectCost,
@@ -220,7 +223,9 @@ func (e *Exec) newThread(f func()) *Thread {
 	go func() {
 		defer e.wg.Done()
 		defer close(t.exited)
+		vrace.Disable() // the scheduler's hand-offs are not synchronisation of the program under test
 		<-t.wake
+		vrace.Enable()
 		if e.aborting {
 			return
 		}
@@ -228,6 +233,8 @@ func (e *Exec) newThread(f func()) *Thread {
 		normal := false
 		defer func() {
 			r := recover()
+			vrace.Release(unsafe.Pointer(&t.raceTok))
+			vrace.ReleaseMerge(unsafe.Pointer(&e.quietTok))
 			t.done = true
 			if e.aborting {
 				return
@@ -277,10 +284,13 @@ func (e *Exec) finish(o Outcome) {
 	e.finished = true
 	e.Outcome = o
 	e.aborting = true
+	vrace.Disable()
 	e.doneCh <- struct{}{}
+	vrace.Enable()
 }
 
 func (t *Thread) park(e *Exec) {
+	vrace.Disable()
 	for {
 		<-t.wake
 		if e.stackReq {
@@ -290,6 +300,7 @@ func (t *Thread) park(e *Exec) {
 		}
 		break
 	}
+	vrace.Enable()
 	if e.aborting {
 		runtime.Goexit()
 	}
@@ -326,8 +337,10 @@ func (e *Exec) collectWhere(self *Thread) {
 			o.Where = repoFrame()
 			continue
 		}
+		vrace.Disable()
 		o.wake <- struct{}{}
 		<-e.stackAck
+		vrace.Enable()
 	}
 	e.stackReq = false
 }
@@ -350,6 +363,9 @@ func Point(kind string, obj int, enabled func() bool) {
 	}
 	t := e.cur
 	t.pkind, t.pobj, t.enabled = kind, obj, enabled
+	if vrace.Enabled {
+		vrace.ReleaseMerge(unsafe.Pointer(&e.quietTok))
+	}
 	e.Steps++
 	if e.Steps > e.HorizonN {
 		e.finish(Horizon)
@@ -469,7 +485,9 @@ func (e *Exec) reschedule(t *Thread) {
 			return
 		}
 		e.cur = next
+		vrace.Disable()
 		next.wake <- struct{}{}
+		vrace.Enable()
 		if t != nil {
 			t.park(e)
 		}
@@ -571,10 +589,10 @@ func Touch(obj int, write bool, val uint64) {
 		return
 	}
 	t := e.cur
-	oh := e.objHash[obj]
+	oh, _ := e.objHash.Get(uint64(obj))
 	t.hash = mix(mix(t.hash, uint64(obj)+0x77), mix(oh, val))
 	if write {
-		e.objHash[obj] = mix(t.hash, 0x3c3c)
+		e.objHash.Put(uint64(obj), mix(t.hash, 0x3c3c))
 	}
 }
 
@@ -634,13 +652,10 @@ func HashPtr(p unsafe.Pointer) uint64 {
 	if p == nil || E == nil {
 		return 0
 	}
-	if E.ptrIDs == nil {
-		E.ptrIDs = map[unsafe.Pointer]uint64{}
-	}
-	id, ok := E.ptrIDs[p]
+	id, ok := E.ptrIDs.Get(uint64(uintptr(p)))
 	if !ok {
-		id = uint64(len(E.ptrIDs) + 1)
-		E.ptrIDs[p] = id
+		id = uint64(E.ptrIDs.Len() + 1)
+		E.ptrIDs.Put(uint64(uintptr(p)), id)
 	}
 	return id
 }
@@ -705,6 +720,7 @@ func Spawn(f func()) Handle {
 // Join blocks until the thread has finished.
 func (h Handle) Join() {
 	Point("join", -1, func() bool { return h.t.done })
+	vrace.Acquire(unsafe.Pointer(&h.t.raceTok))
 	E.cur.hash = mix(E.cur.hash, h.t.hash)
 }
 
@@ -743,6 +759,7 @@ func Quiesce() {
 		}
 		return len(e.timers) == 0
 	})
+	vrace.Acquire(unsafe.Pointer(&e.quietTok))
 	t.hash = mix(t.hash, e.stateKey(nil))
 }
 
@@ -767,5 +784,6 @@ func Settle() {
 		}
 		return true
 	})
+	vrace.Acquire(unsafe.Pointer(&e.quietTok))
 	t.hash = mix(t.hash, e.stateKey(nil))
 }
